@@ -40,7 +40,7 @@ def generate(rng, tier):
         nrow = rng.choice([1500, 10100])       # size-dependent paths
         tags.add("big")
     hostile = 0.6 if op == "unique" else 0.25
-    spec = gen.gen_frame_spec(rng, nrow=nrow, rid="_rid_", hostile=hostile, tags=tags, kinds=gen.KINDS_KEY + ["timedelta", "float32", "uint64", "int_be", "float_be", "datetime_be", "omix", "onum"])
+    spec = gen.gen_frame_spec(rng, nrow=nrow, rid="_rid_", hostile=hostile, tags=tags, kinds=gen.KINDS_KEY + ["timedelta", "float32", "uint64", "int_be", "float_be", "datetime_be", "omix", "onum", "datetime_ns", "datetime_s"])
     case = {"op": op, "spec": spec, "tags": sorted(tags)}
     cols = [s[0] for s in spec if s[0] != "_rid_"]
     if op in ("filter", "filter_out"):
